@@ -192,7 +192,9 @@ impl Bmi2StringProcessor {
     pub fn char_class_match_bmi2(&self, text: &str, char_classes: &[CharClass]) -> Vec<bool> {
         #[cfg(target_arch = "x86_64")]
         {
-            if self.capabilities.has_bmi2 && text.len() >= 8 {
+            // the byte-wise kernel answers per byte: only ASCII text gets the same answer
+            // (one flag per character) as the scalar definition below
+            if self.capabilities.has_bmi2 && text.len() >= 8 && text.is_ascii() {
                 return unsafe { self.char_class_match_bmi2_impl(text.as_bytes(), char_classes) };
             }
         }
@@ -276,7 +278,9 @@ impl Bmi2StringProcessor {
     pub fn filter_chars_bmi2(&self, input: &str, filter: CharFilter) -> String {
         #[cfg(target_arch = "x86_64")]
         {
-            if self.capabilities.has_bmi2 && input.len() >= 8 {
+            // the byte-wise kernel may keep or drop single bytes of a multi-byte character
+            // (its String would not even be UTF-8): only ASCII text goes through it
+            if self.capabilities.has_bmi2 && input.len() >= 8 && input.is_ascii() {
                 return unsafe { self.filter_chars_bmi2_impl(input.as_bytes(), filter) };
             }
         }
